@@ -42,6 +42,37 @@ inline Verdict snapshotAgain(const OwnedPacket& op, const char* when)
     return Verdict::pass();
 }
 
+// "returns promptly": a decode call of at most 64 KiB takes milliseconds; one that is still running after 30 s is reported (the process
+// aborts, the driver's abort handler saves the case).  Not armed inside libFuzzer targets, whose own -timeout uses SIGALRM.
+#if !defined(VF_CGF) && !defined(VF_LIBFUZZER_TARGET)
+inline void decodeAlarm(int)
+{
+    static const char msg[] = "runtime error: Decoder::decode did not return within 30 s (C02: decoding returns promptly)\n";
+    ssize_t r = write(2, msg, sizeof(msg) - 1);
+    (void) r;
+    abort();
+}
+struct DecodeWatch
+{
+    DecodeWatch()
+    {
+        signal(SIGALRM, decodeAlarm);
+        alarm(30);
+    }
+    ~DecodeWatch()
+    {
+        alarm(0);
+    }
+};
+#else
+struct DecodeWatch
+{
+    DecodeWatch()
+    {
+    }
+};
+#endif
+
 inline Verdict checkHistory(const std::vector<Bytes>& buffers, HistoryStats& hs)
 {
     std::vector<OwnedPacket> owned;
@@ -57,7 +88,11 @@ inline Verdict checkHistory(const std::vector<Bytes>& buffers, HistoryStats& hs)
             uint8_t* heap = static_cast<uint8_t*>(malloc(b.size() ? b.size() : 1));
             if (!b.empty())
                 memcpy(heap, b.data(), b.size());
-            auto got = dec->decode(heap, b.size());
+            std::vector<std::shared_ptr<lib::Packet>> got;
+            {
+                DecodeWatch watch;
+                got = dec->decode(heap, b.size());
+            }
             bool untouched = b.empty() || memcmp(heap, b.data(), b.size()) == 0;
             free(heap);  // released before the packets are looked at: aliasing the input becomes a use-after-free
             VF_CHECK(untouched, "buffer " << i << " (" << b.size() << " bytes) was written to by decode");
